@@ -9,6 +9,7 @@
 //!       format.
 mod rng;
 mod c16;
+mod c13;
 
 use std::io::{BufRead, Write};
 
@@ -51,6 +52,7 @@ type Exec = fn(&[&str]) -> String;
 fn lookup(id: &str) -> Option<(&'static str, Gen, Exec)> {
     match id {
         "C16" => Some(("C16", c16::generate, c16::exec)),
+        "C13" => Some(("C13", c13::generate, c13::exec)),
         _ => None,
     }
 }
